@@ -220,6 +220,7 @@ func (fs *fsMutable) SetInodeAttributes(ctx context.Context, op *fuseops.SetInod
 		if err != nil {
 			return jfuse.EIO
 		}
+		defer file.Close()
 		if *op.Size > math.MaxInt64 {
 			fs.l.Error("Received size greater than MaxInt64", zap.Uint64("size", *op.Size), zap.Uint64("inode", uint64(op.Inode)))
 			return jfuse.EINVAL
@@ -496,7 +497,7 @@ func (fs *fsMutable) ReadFile(
 	fs.lockBackingFiles.Lock()
 	defer fs.lockBackingFiles.Unlock()
 
-	fs.backingFiles[op.Inode] = &file
+	fs.cacheBackingFile(op.Inode, &file)
 	op.BytesRead, err = file.ReadAt(op.Dst, op.Offset)
 	if err == io.EOF {
 		// a short read at the end of the file is not an error for fuse
@@ -529,7 +530,7 @@ func (fs *fsMutable) WriteFile(
 	fs.lockBackingFiles.Lock()
 	defer fs.lockBackingFiles.Unlock()
 
-	fs.backingFiles[op.Inode] = &file
+	fs.cacheBackingFile(op.Inode, &file)
 	n, err = file.WriteAt(op.Data, op.Offset)
 	if err != nil {
 		return jfuse.EIO
@@ -545,6 +546,15 @@ func (fs *fsMutable) WriteFile(
 	nodeEntry.attr.Size = uint64(s.Size())
 	nodeEntry.lock.Unlock()
 	return err
+}
+
+// cacheBackingFile remembers the handle last opened on an inode (for Sync/Flush) and closes the one it replaces.
+// Caller must hold lockBackingFiles.
+func (fs *fsMutable) cacheBackingFile(iNode fuseops.InodeID, file *afero.File) {
+	if prev := fs.backingFiles[iNode]; prev != nil && *prev != nil {
+		_ = (*prev).Close()
+	}
+	fs.backingFiles[iNode] = file
 }
 
 func (fs *fsMutable) SyncFile(
